@@ -453,3 +453,61 @@ Example C10_example_add_axis :
         = [Some (s "x[i, k] -> y[i, k]"); Some (s "y[:, k] -> z[k]")]
      /\ depi [f; g] (s "x") 1.
 Proof. exact add_axis_instance. Qed.
+
+(* ---------- add_mapspec_axis, value level (pointwise core) ---------- *)
+From Verif Require Import Model.MapDenote Proofs.AddAxisValueFacts.
+
+(* stacking vs NumPy basic indexing: `stacked sh arrs` is what stack_last builds from arrays of one shape
+   (C10_stack_last_stacked); indexing it with a key that ends in the integer n is indexing the n-th array *)
+Theorem C10_stack_last_stacked : forall sh arrs,
+  (forall a, In a arrs -> shp a = sh /\ length (dat a) = prod sh) -> arrs <> [] ->
+  stack_last (map VA arrs) = Some (VA (stacked sh arrs)).
+Proof. exact stack_last_stacked. Qed.
+Print Assumptions C10_stack_last_stacked.
+
+Theorem C10_stacked_index_val : forall sh arrs,
+  (forall a, In a arrs -> shp a = sh /\ length (dat a) = prod sh) ->
+  forall key n a, nth_error arrs n = Some a ->
+  index_val (VA (stacked sh arrs)) (key ++ [KInt n]) = index_val (VA a) key.
+Proof. exact stacked_index_val. Qed.
+Print Assumptions C10_stacked_index_val.
+
+(* add_axis_lifts_partial.  FULL statement (property text): for a pipeline p without internal axes, p' with
+   add_axis [q] k p = Ok p', inputs that differ only in q := stack vs, every output array of denote_run p' whose
+   function depends on q has, as its slice at index n along the new (last) axis, the output of denote_run p for
+   q := vs[n], and the other outputs are equal.
+   PROVED here is the pointwise core for ONE function, on what the code (new_spec, the per-function step of
+   add_mapspec_axis) builds, in the case that the function already maps q and the axis is new to it: the element at
+   index idx ++ [n] of output j of the function with the new MapSpec, computed from q := stack of the arrays arrs,
+   is the element at index idx of output j of the function with the ORIGINAL MapSpec computed from q := arrs[n]
+   (MapDenote.denote_elem: the arguments delivered by the MapSpec at that index, the user code, the routing of the
+   j-th returned value; errors included).  It holds for any mask (internal axes allowed).
+   NOT proved: the two other branches of new_spec (a function without MapSpec gets `q[:, .., k] -> outs[k]`; a mapped
+   function that takes q whole gets q appended), the assembly over all indices into arrays (slice_last of
+   denote_mapped) and the induction along the pipeline through func_shape; they remain checked by the
+   correspondence (Corr/Run_C10Map.v, kind add_axis: the implementation and map_run are compared per slice). *)
+Theorem C10_add_axis_lifts_elem_partial : forall body f q dims k ms ms' e n sh arrs an kw mask idx j,
+  fspec f = Some ms -> mem_str q (map aname (ins ms)) = true ->
+  (forall a, In a (ins ms ++ outs ms) -> has_axis k a = false) ->
+  new_spec f q dims k = Ok ms' ->
+  (forall a, In a arrs -> shp a = sh /\ length (dat a) = prod sh) -> nth_error arrs n = Some an ->
+  length mask = length idx -> ext_of mask idx = e -> length e = length (external_indices ms) ->
+  stack_last (map VA arrs) = Some (VA (stacked sh arrs))
+  /\ denote_elem body f ms' (map (setq q (VA (stacked sh arrs))) kw) (mask ++ [true]) j (idx ++ [n])
+     = denote_elem body f ms (map (setq q (VA an)) kw) mask j idx.
+Proof. exact add_axis_lifts_elem. Qed.
+Print Assumptions C10_add_axis_lifts_elem_partial.
+
+Example C10_example_add_axis_lifts :
+  let A nm ax := {| aname := nm; axes := ax |} in
+  let ms := {| ins := [A (s "x") [Some (s "i")]]; outs := [A (s "y") [Some (s "i")]] |} in
+  let f := {| fname := s "f"; fouts := [s "y"]; fparams := [s "x"]; fbound := []; fdefaults := [];
+              fspec := Some ms; fint := []; fret := [] |} in
+  let a0 := {| shp := [2]; dat := [s "p"; s "q"] |} in
+  let a1 := {| shp := [2]; dat := [s "r"; s "t"] |} in
+  let body := fun (g : mfunc) (kw : env) => match kw with [(_, VS v)] => Ok [VS (s "f(" ++ v ++ s ")")] | _ => Err ValueError end in
+  exists ms', new_spec f (s "x") [(s "x", 2)] (s "k") = Ok ms' /\ print ms' = s "x[i, k] -> y[i, k]"
+    /\ stacked [2] [a0; a1] = {| shp := [2; 2]; dat := [s "p"; s "r"; s "q"; s "t"] |}
+    /\ denote_elem body f ms' [(s "x", VA (stacked [2] [a0; a1]))] [true; true] 0 [1; 0] = Ok (s "f(q)")
+    /\ denote_elem body f ms [(s "x", VA a0)] [true] 0 [1] = Ok (s "f(q)").
+Proof. exact add_axis_lifts_instance. Qed.
